@@ -372,6 +372,14 @@ def rewrite_body(body, log, r14=None):
     out.append(body[i:])
     body = ''.join(out)
 
+    # R9 -- constructor as function value, `_` closure parameter
+    n = body.count('.map(Capture)')
+    if n:
+        body = body.replace('.map(Capture)', '.map(|x_| Capture(x_))')
+        log.extend(['R9'] * n)
+    body, n = re.subn(r'\|_\|', '|_x|', body)
+    log.extend(['R9'] * n)
+
     if r14:
         body = r14_inline_map(body, log, r14)
 
@@ -442,13 +450,6 @@ def rewrite_body(body, log, r14=None):
     body, n = re.subn(r'\bFxHashMap::default\(\)', 'PositionCountMap::default()', body)
     log.extend(['R13'] * n)
 
-    # R9 -- constructor as function value, `_` closure parameter
-    n = body.count('.map(Capture)')
-    if n:
-        body = body.replace('.map(Capture)', '.map(|x_| Capture(x_))')
-        log.extend(['R9'] * n)
-    body, n = re.subn(r'\|_\|', '|_x|', body)
-    log.extend(['R9'] * n)
     return body
 
 
